@@ -251,6 +251,13 @@ def r20_3(ctx: Ctx) -> None:
         ok = cfg.dominates(cfg.n(write), cfg.n(call))
         ctx.ob("R20.3", MAIN, call, qual, f"results JSON before {name}", ok,
                "the results JSON is written before records are annotated and other outputs are created", form="")
+    # the directory step may delete region files on the strength of the input's name alone (the reuse exemption): the
+    # input must have been read - and a sequence file that merely ends in .json rejected - before it runs
+    read = one("read_data")
+    ctx.ob("R20.3", MAIN, prep, qual, "input read before the directory is touched", cfg.dominates(cfg.n(read), cfg.n(prep))
+           and cfg.n(read) != cfg.n(prep),
+           "the input is parsed (and an unusable one refused) before the output directory is prepared, which deletes old "
+           "region files when the input looks like reused results", form="")
     # other writers of profiling data etc. also come after the preparation
     others = [c for c in calls(func) if call_name(c).startswith("write_") and c not in (outs,)]
     for call in others:
